@@ -251,4 +251,8 @@ theorem byteLen_ge_length (s : Str) : s.length ≤ byteLen s := by
 theorem byteLen_append (a b : Str) : byteLen (a ++ b) = byteLen a + byteLen b := by
   simp [byteLen, List.sum_append]
 
+theorem scan_empty_section (c : Char) (hc : c = ':' ∨ c = NUL) (rest : Str) (v : Vol) : scan (c :: rest) [] v = none := by
+  rcases hc with h | h <;> subst h <;> simp [scan, isWindowsDrive, populate, NUL]
+
+
 end CV.Short
